@@ -212,3 +212,112 @@ func containsStr(s, sub string) bool {
 	}
 	return false
 }
+
+// ---- C07 for longer lists: the CLI's generic sort function and the real slices.SortFunc (insertion
+// sort below 12 elements, pdqsort from 12) over an abstract ecosystem whose versions are
+// (key, text) pairs: Compare orders by key, String returns the text. ids names the argument
+// texts (equal letters = the same text given twice), keys holds one symbolic key per letter.
+
+type stubV struct {
+	key  int
+	text string
+}
+
+func (v *stubV) Compare(o *stubV) int {
+	if v.key < o.key {
+		return -1
+	}
+	if v.key > o.key {
+		return 1
+	}
+	return 0
+}
+func (v *stubV) String() string { return v.text }
+
+type stubR struct{}
+
+func (r *stubR) Contains(v *stubV) bool { return false }
+func (r *stubR) String() string         { return "" }
+
+type stubEco struct {
+	texts []string
+	keys  []int
+}
+
+func (e *stubEco) Name() string { return "stub" }
+func (e *stubEco) NewVersion(s string) (*stubV, error) {
+	for i, t := range e.texts {
+		if t == s {
+			return &stubV{key: e.keys[i], text: s}, nil
+		}
+	}
+	return nil, errStub{}
+}
+func (e *stubEco) NewVersionRange(s string) (*stubR, error) { return &stubR{}, nil }
+
+type errStub struct{}
+
+func (errStub) Error() string { return "invalid stub version" }
+
+func (e *stubEco) keyOf(s string) int {
+	for i, t := range e.texts {
+		if t == s {
+			return e.keys[i]
+		}
+	}
+	return -1
+}
+
+func countStr(xs []string, s string) int {
+	n := 0
+	for _, x := range xs {
+		if x == s {
+			n++
+		}
+	}
+	return n
+}
+
+const sortAlphabet = "abcdefghijklmnopqrstuvwxyzABCDEFGHIJKLMNOPQRSTUVWXYZ0123456789!#"
+
+func alphaIdx(c byte) int {
+	for i := 0; i < len(sortAlphabet); i++ {
+		if sortAlphabet[i] == c {
+			return i
+		}
+	}
+	return 0
+}
+
+// C07AbstractSort: fix != 0 turns each symbolic key into a constant per path before sorting
+// (needed for the long lists, where the comparisons themselves would fork too often).
+func C07AbstractSort(ids, keys string, fix int) {
+	n := len(ids)
+	e := &stubEco{}
+	args := make([]string, n)
+	for i := 0; i < n; i++ {
+		j := alphaIdx(ids[i])
+		k := int(keys[j] - '0')
+		if fix != 0 {
+			c := 0
+			for c < 9 && k != c {
+				c++
+			}
+			k = c
+		}
+		args[i] = ids[i : i+1]
+		if e.keyOf(args[i]) < 0 {
+			e.texts = append(e.texts, args[i])
+			e.keys = append(e.keys, k)
+		}
+	}
+	out, err := sort(e, args)
+	vv.Assert(err == nil, "C07: sort of valid versions fails")
+	vv.Assert(len(out) == n, "C07: sort returns a different number of versions")
+	for _, t := range e.texts {
+		vv.Assert(countStr(out, t) == countStr(args, t), "C07: sorted output is not the input strings as a multiset")
+	}
+	for j := 0; j+1 < len(out); j++ {
+		vv.Assert(e.keyOf(out[j]) <= e.keyOf(out[j+1]), "C07: sorted output is not in non-decreasing order")
+	}
+}
